@@ -173,7 +173,8 @@ def is_class(re, env):
 # reach deep states that uniformly random characters almost never reach).
 # ---------------------------------------------------------------------------------------------
 
-KNOWN_CHARS = list(range(32, 127)) + [10, 9, 27, 233, 769, 28450, 128512]
+KNOWN_CHARS = list(range(32, 127)) + [10, 9, 13, 27, 127, 128, 133, 173, 233, 768, 769, 2047, 2048, 4352, 4448, 8203, 8205, 8232,
+               12288, 12354, 28450, 55295, 57344, 65279, 65281, 65313, 65535, 65536, 128512, 1114111]
 
 
 def sample_class(re, env, rnd, sigma, builtins, known_chars=None):
